@@ -361,33 +361,47 @@ theorem removeExchange_Quiet {s : State} (h : QInv s) (remote : Remote) (w : Wir
       · exact ⟨⟨rfl, NoAck_nil⟩, hd⟩
     exact h1.1.trans (continueBacklog_Quiet h1.2 remote)
 
-/-- a confirmable request opens at most one opportunity, under its own ID -/
+/-- the empty-ACK timer consumes the opportunity it acknowledges -/
+theorem fireEmptyAck_Bud (R : Remote) (M : Nat) (s : State) (remote : Remote) (token : Token) :
+    Bud R M 0 s (fireEmptyAck s remote token) := by
+  unfold fireEmptyAck
+  split
+  · exact Bud_of_Quiet (Quiet_refl s)
+  · rename_i p hf
+    obtain ⟨hp, hr, ht⟩ := find_piggy_spec hf
+    exact consume_Bud hp hr ht
+      { mtype := .ack, code := 0, mid := p.mid, token := [], obs := none, body := 0 }
+      rfl (sendInitially_Bud R M _ _ _ _ _)
+
+/-- a request flushes the opportunity of an earlier request on its token (paid for by that
+opportunity); a confirmable one then opens at most one opportunity, under its own ID -/
 theorem processRequest_Bud (R : Remote) (M : Nat) (s : State) (remote : Remote) (mcl : Bool)
     (w : Wire) : Bud R M (conRecv R M (.recv remote mcl w)) s (processRequest s remote w) := by
+  have hf := fireEmptyAck_Bud R M s remote w.token
   unfold processRequest
   simp only
+  generalize fireEmptyAck s remote w.token = r0 at hf
   split
   · rename_i hc
     have hc' : w.mtype = .con := by simpa using hc
-    generalize hs1 : ({ s with piggy := s.piggy.filter (fun p => !(p.remote == remote && p.token == w.token)) ++
-        [{ remote, token := w.token, mid := w.mid, fireAt := s.now + s.cfg.emptyAckDelay }] } : State) = s1
+    generalize hs1 : ({ r0.1 with piggy := r0.1.piggy ++
+        [{ remote, token := w.token, mid := w.mid, fireAt := r0.1.now + r0.1.cfg.emptyAckDelay }] } : State) = s1
     have hq := tokenProcessRequest_Quiet s1 remote w
-    have h1 : oppCount R M s1 ≤ oppCount R M s + conRecv R M (.recv remote mcl w) := by
+    have h1 : oppCount R M s1 ≤ oppCount R M r0.1 + conRecv R M (.recv remote mcl w) := by
       rw [← hs1]
       simp only [oppCount, List.countP_append]
       have key : List.countP (fun p => p.remote == R && p.mid == M)
-          [({ remote, token := w.token, mid := w.mid, fireAt := s.now + s.cfg.emptyAckDelay } : Piggy)] ≤
+          [({ remote, token := w.token, mid := w.mid, fireAt := r0.1.now + r0.1.cfg.emptyAckDelay } : Piggy)] ≤
           conRecv R M (.recv remote mcl w) := by
         simp only [List.countP_cons, List.countP_nil, conRecv, hc', true_and]
         by_cases e1 : remote = R <;> by_cases e2 : w.mid = M <;> simp [e1, e2]
-      have hle : (s.piggy.filter (fun p => !(p.remote == remote && p.token == w.token))).countP
-          (fun p => p.remote == R && p.mid == M) ≤ s.piggy.countP (fun p => p.remote == R && p.mid == M) :=
-        List.Sublist.countP_le List.filter_sublist
       omega
     have h2 := Bud_of_Quiet (R := R) (M := M) hq
-    simp only [Bud] at *
+    simp only [Bud, ackCount_append] at *
     omega
-  · exact (Bud_of_Quiet (tokenProcessRequest_Quiet s remote w)).mono (Nat.zero_le _)
+  · have h2 := Bud_of_Quiet (R := R) (M := M) (tokenProcessRequest_Quiet r0.1 remote w)
+    simp only [Bud, ackCount_append] at *
+    omega
 
 theorem ackIf_le_conRecv (R : Remote) (M : Nat) (remote : Remote) (mcl : Bool) (w w' : Wire)
     (hc : w.mtype = .con) (hm : w'.mid = w.mid) :
@@ -450,7 +464,7 @@ theorem recv_Bud (R : Remote) (M : Nat) {s : State} (hq : QInv s) (hr : RMid s) 
   split
   · exact recvDup_Bud R M hr remote mcl w
   · dsimp only
-    generalize hs0 : (if isRequest w.code = true then
+    generalize hs0 : (if dedupable w = true then
         ({ s with recent := s.recent ++ [(⟨remote, w.mid, none, s.now + s.cfg.exchangeLifetime⟩ : Recent)] } : State)
         else s) = s0
     have e0 : s0.piggy = s.piggy := by
@@ -459,7 +473,7 @@ theorem recv_Bud (R : Remote) (M : Nat) {s : State} (hq : QInv s) (hr : RMid s) 
       rw [← hs0]; split
       · exact QInv_of_tables hq rfl rfl
       · exact hq
-    generalize hx : (if (w.mtype == MType.ack || w.mtype == MType.rst) = true then removeExchange s0 remote w
+    generalize hx : (if fitsReply w = true then removeExchange s0 remote w
         else (s0, [])) = x
     have h1 : Quiet s x := by
       rw [← hx]
@@ -490,18 +504,6 @@ theorem fireRetransmit_Quiet {s : State} (h : QInv s) (remote : Remote) (mid : N
       rw [h.ex e (List.mem_of_find?_eq_some hf)]; simp
     · exact Quiet_of_piggy (tokenDispatchError_Quiet (dropBacklog (dropExchange s remote mid) remote)
         remote .conRetransmitsExceeded) rfl
-
-/-- the empty-ACK timer consumes the opportunity it acknowledges -/
-theorem fireEmptyAck_Bud (R : Remote) (M : Nat) (s : State) (remote : Remote) (token : Token) :
-    Bud R M 0 s (fireEmptyAck s remote token) := by
-  unfold fireEmptyAck
-  split
-  · exact Bud_of_Quiet (Quiet_refl s)
-  · rename_i p hf
-    obtain ⟨hp, hr, ht⟩ := find_piggy_spec hf
-    exact consume_Bud hp hr ht
-      { mtype := .ack, code := 0, mid := p.mid, token := [], obs := none, body := 0 }
-      rfl (sendInitially_Bud R M _ _ _ _ _)
 
 theorem submit_Bud (R : Remote) (M : Nat) (s : State) (r : Nat) (remote : Remote) (mc ob : Bool)
     (m : OutMsg) (hm : m.mtype ≠ some .ack) : Bud R M 0 s (submit s r remote mc ob m) := by
